@@ -163,6 +163,8 @@ static rc::Gen<Case> genCase(int tier)
             op.dev = devs[*range<size_t>(0, devs.size() - 1)];
             op.iface = ifs[*range<size_t>(0, ifs.size() - 1)];
             op.viaDecoder = *range<uint8_t>(0, 1);
+            // two fifths of the updates carry one of three fixed payload contents: the same report again, with other header fields
+            op.content = *rc::gen::weightedElement<uint8_t>({{6, 0}, {2, 1}, {1, 2}, {1, 3}});
             c.ops.push_back(op);
         }
         return c;
@@ -172,7 +174,9 @@ static rc::Gen<Case> genCase(int tier)
 static void enumerate(int tier, const std::function<bool(const Case&)>& emit)
 {
     const std::vector<Op> alphabet = {{0, 0, 0, 0}, {0, 1, 0, 1}, {1, 0, 0, 1}, {1, 0, 1, 0}, {1, 1, 0, 0}, {2, 0, 0, 0},
-                                      {3, 0, 0, 0}, {3, 1, 0, 0}, {4, 0, 0, 0}, {4, 0, 1, 0}, {5, 0, 0, 0}, {1, 2, 0, 0}, {6, 0, 0, 0}};
+                                      {3, 0, 0, 0}, {3, 1, 0, 0}, {4, 0, 0, 0}, {4, 0, 1, 0}, {5, 0, 0, 0}, {1, 2, 0, 0}, {6, 0, 0, 0},
+                                      // the same payload again (repeating these inside a sequence gives equal payloads, other headers)
+                                      {1, 0, 0, 0, 1}, {0, 0, 0, 0, 1}};
     int maxLen = tier ? 5 : 4;
     // the alphabet is enumerated with the plain ids (0, 1, 2 / 0, 1) and with ids that coincide modulo 64 and modulo 256
     static const uint16_t devMap[3][3] = {{0, 1, 2}, {5, 69, 261}, {1, 0x0101, 0x8001}};
@@ -210,7 +214,7 @@ int main(int argc, char** argv)
     prop.run = runCase;
     prop.enumerate = enumerate;
     prop.enumerationIsExhaustive = true;
-    prop.enumerationNote = "all operation sequences up to length 4 (thorough 5) over a 13-operation alphabet (two devices, two interfaces, an unknown "
+    prop.enumerationNote = "all operation sequences up to length 4 (thorough 5) over a 15-operation alphabet (two devices, two interfaces, an unknown "
                            "device, data packet, removals, clear)";
     return pbtMain(argc, argv, prop);
 }
